@@ -2,6 +2,7 @@ import Rml.Model.Time
 import Driver.Util
 import Driver.AmfText
 import Driver.ChunkOps
+import Driver.MsgText
 open Rml
 
 namespace Driver
@@ -13,6 +14,7 @@ def showB (b : Bool) : String := if b then "1" else "0"
 
 structure St where
   chunk : ChunkSt := {}
+  dead : Bool := false
 
 def timeOp (a b : Nat) : String :=
   s!"{Time.add a b} {Time.sub a b} {showOrd (Time.tsCompare a b)} {showB (Time.tsGt a b)} {showB (Time.tsLt a b)} {showB (Time.tsGe a b)} {showB (Time.tsLe a b)} {showB (Time.tsEq a b)}"
@@ -42,15 +44,19 @@ def step (st : St) (line : String) : St × String :=
     if tok.startsWith "!" then (st, "!") else
     match chunkOp st.chunk (tok :: rest) with
     | some (c, out) => ({ st with chunk := c }, out)
-    | none => (st, "bad-op")
+    | none =>
+      match msgOp (tok :: rest) with
+      | some out => (st, out)
+      | none => (st, "bad-op")
   | _ => (st, "bad-op")
 
 partial def loop (h : IO.FS.Stream) (out : IO.FS.Stream) (st : St) : IO Unit := do
   let line ← h.getLine
   if line.isEmpty then return ()
-  let (st', o) := step st line
+  let isCase := line.startsWith "case "
+  let (st', o) := if st.dead && !isCase then (st, "dead") else step st line
   out.putStrLn o
-  loop h out st'
+  loop h out (if o.startsWith "panic" then { st' with dead := true } else st')
 
 end Driver
 
